@@ -236,7 +236,7 @@ func c17Build(rng *fw.Rand, kind, w, h int, pix [][]uint8, allowFree, bilevel bo
 				img.SetGray(ox+x, oy+y, color.Gray{Y: pix[y][x]})
 			}
 		}
-		s.src = gozxing.NewLuminanceSourceFromImage(img.SubImage(rect))
+		s.src = gozxing.NewLuminanceSourceFromImage(c17MaybePlain(rng, img.SubImage(rect), &s.desc))
 	case c17RGBA:
 		img := image.NewRGBA(outer)
 		if sub {
@@ -265,7 +265,7 @@ func c17Build(rng *fw.Rand, kind, w, h int, pix [][]uint8, allowFree, bilevel bo
 				img.SetRGBA(ox+x, oy+y, c)
 			}
 		}
-		s.src = gozxing.NewLuminanceSourceFromImage(img.SubImage(rect))
+		s.src = gozxing.NewLuminanceSourceFromImage(c17MaybePlain(rng, img.SubImage(rect), &s.desc))
 	case c17NRGBA:
 		img := image.NewNRGBA(outer)
 		if sub {
@@ -293,7 +293,7 @@ func c17Build(rng *fw.Rand, kind, w, h int, pix [][]uint8, allowFree, bilevel bo
 				img.SetNRGBA(ox+x, oy+y, c)
 			}
 		}
-		s.src = gozxing.NewLuminanceSourceFromImage(img.SubImage(rect))
+		s.src = gozxing.NewLuminanceSourceFromImage(c17MaybePlain(rng, img.SubImage(rect), &s.desc))
 	case c17Ints:
 		px := make([]int, w*h+rng.Intn(3))
 		for y := 0; y < h; y++ {
@@ -836,6 +836,22 @@ func c17CropExhaustive(r *fw.Rec, kind, w, h int, depth int) {
 		r.Nontrivial(fmt.Sprintf("exh/%d/%d/%d/%d", kind, w, h, depth))
 		r.Tally(fmt.Sprintf("exh_sources_depth%d", depth))
 	}
+}
+
+// c17PlainImage shows another image through the three methods of image.Image only (none of the
+// optional fast-path interfaces of the standard image types), origin and all.
+type c17PlainImage struct{ im image.Image }
+
+func (p c17PlainImage) ColorModel() color.Model { return p.im.ColorModel() }
+func (p c17PlainImage) Bounds() image.Rectangle { return p.im.Bounds() }
+func (p c17PlainImage) At(x, y int) color.Color { return p.im.At(x, y) }
+
+func c17MaybePlain(rng *fw.Rand, im image.Image, note *string) image.Image {
+	if rng.Intn(4) == 0 {
+		*note += " [through a plain image.Image wrapper]"
+		return c17PlainImage{im}
+	}
+	return im
 }
 
 // planar YUV constructor with a window that does not fit
